@@ -7,7 +7,13 @@
   2. `flush_chan_lt`: the reliable data packets of a flush are on channels of the send table.
   3. `mtr_flush_log`: the generic "every later flush of a trace" induction over `MTr` runs (range side condition and valid
      channel ids carried along), and its instances for `Released` / `SliceAcked` (`mtr_released_quiet`,
-     `mtr_sliceAcked_quiet`).
+     `mtr_sliceAcked_quiet`), `mtr_never_after_ack`.
+  4. reading with the generated decoder (`gdecodes_inv`, `GCarriesMsg`, `GCarriesSlice`).
+  5. `flush_recorded_dec`: what the decoder reads from a datagram of a flush is recorded in the sent table.
+  6. NOT EARLY: the `last_sent` stamp invariant `StampGE` (channel level: `stampGE_send/_msgAck/_sliceAck/_flush/_emitted/_due`;
+     connection level: `stamp_flush`, `stamp_emit_flush` via `chanLoop_emit`; traces: `rstamp_run`, the clock `now_run`,
+     `mtr_not_early`), `GEmits`.
+  7. C14 through the decoder: `dec_enc_payload`, `decPay_sum_le`, `gDecPay`.
 -/
 import RenetVerif.Lemmas.SrcEquiv.SrcConnSystem
 import RenetVerif.Lemmas.AckFinal
@@ -677,5 +683,557 @@ theorem stampGE_due {T ch id : Nat} {w : Option Nat} {s : SendRel} (h : s.Inv) (
     | smallReliable _ _ _ => exact he.elim
     | unreliableSlice _ _ _ => exact he.elim
     | ack _ _ => exact he.elim
+
+/-! ### connection level -/
+
+theorem stamp_processPacket {T id : Nat} {w : Option Nat} {c c' : Conn} {bytes : Bytes} {ch0 : Nat}
+    (hi : c.SendInv) (hh : Holds (StampGE T id w) c ch0) (hr : c.processPacket bytes = .ok c') :
+    Holds (StampGE T id w) c' ch0 := by
+  have hall := System.processPacket_pres (PP (StampGE T id w) ch0)
+    (fun ch s id' s' ⟨hi, hc, hp⟩ e => by
+      obtain ⟨i', st, -⟩ := msgAck_cases hi e
+      exact ⟨i', st.1.trans hc, fun h => stampGE_msgAck hi (hp h) e⟩)
+    (fun ch s id' idx s' ⟨hi, hc, hp⟩ e => by
+      obtain ⟨i', st, -⟩ := sliceAck_cases hi e
+      exact ⟨i', st.1.trans hc, fun h => stampGE_sliceAck hi (hp h) e⟩)
+    hr (pp_of_holds hi hh)
+  obtain ⟨s, hs, -⟩ := hh
+  obtain ⟨s', hs', -⟩ := processPacket_chan hi hr hs
+  exact ⟨s', hs', (hall ch0 s' hs').2.2 rfl⟩
+
+theorem stamp_sendMessage {T id : Nat} {w : Option Nat} {c c' : Conn} {ch ch0 : Nat} {m : Bytes}
+    (hi : c.SendInv) (hh : Holds (StampGE T id w) c ch0) (hr : c.sendMessage ch m = .ok c') :
+    Holds (StampGE T id w) c' ch0 := by
+  obtain ⟨s, hs, hp⟩ := hh
+  rcases System.sendMessage_cases hr with ⟨-, s1, s1', hf, he, rfl⟩ | ⟨-, e⟩
+  · unfold Holds
+    dsimp only
+    rw [SI.find?_insert]
+    by_cases cc : ch = ch0
+    · subst cc
+      rw [if_pos rfl]
+      rw [hs] at hf; cases hf
+      exact ⟨s1', rfl, stampGE_send (hi.chans _ _ hs).1 hp he⟩
+    · rw [if_neg cc]; exact ⟨s, hs, hp⟩
+  · exact holds_sendRel_eq e ⟨s, hs, hp⟩
+
+/-- a flush at `T ≤ now` keeps the stamp bound, and whatever it transmits of the slot was due: the channel's
+    `resend_time ≤ now - T` -/
+theorem stamp_flush {T id ch : Nat} {w : Option Nat} {c c' : Conn} {bs : List Bytes} (hg : Good c) (hT : T ≤ c.now)
+    (hh : Holds (StampGE T id w) c ch) (hr : c.getPacketsToSend = .ok (c', bs)) :
+    Holds (StampGE T id w) c' ch ∧
+    ∀ s, SMap.find? c.sendRel ch = some s → ∀ p ∈ System.flushPk c, Emits ch id w p → s.resend ≤ c.now - T := by
+  obtain ⟨s0, hs0, hp0⟩ := hh
+  obtain ⟨h1, h2⟩ := System.flush_pres
+    (fun ch' s => s.Inv ∧ s.ch = ch' ∧ (ch' = ch → StampGE T id w s ∧ s.resend = s0.resend))
+    (fun p => Emits ch id w p → s0.resend ≤ c.now - T) c'.packetSeq
+    (fun ch' s seq avail ⟨hi, hc, hp⟩ _ => by
+      obtain ⟨a, b, -, -, -⟩ := getPackets_facts hi seq avail c.now
+      have hk := SendRel.getPackets_keeps (gp_eta s seq avail c.now)
+      refine ⟨⟨a, b.1.trans hc, fun h => ⟨stampGE_flush seq avail c.now hT (hp h).1, hk.2.2.2.2.1.trans (hp h).2⟩⟩,
+        fun p hmem he => ?_⟩
+      have hch : s.ch = ch := (stampGE_emitted hi seq avail c.now hmem he).1
+      have hcc : ch' = ch := hc.symm.trans hch
+      rw [← (hp hcc).2]
+      exact stampGE_due hi seq avail c.now (hp hcc).1 hmem he)
+    (fun su seq avail p hmem he =>
+      absurd he.relOn (not_relOn_of_not_rel (System.unrel_not_rel su seq avail p hmem)))
+    (fun seq he => by cases w <;> exact he.elim)
+    hr (Nat.le_refl _)
+    (fun ch' s hf => ⟨(hg.1.chans ch' s hf).1, (hg.1.chans ch' s hf).2, by
+      rintro rfl
+      rw [hs0] at hf; cases hf; exact ⟨hp0, rfl⟩⟩)
+  refine ⟨?_, fun s hs p hp he => by rw [hs0] at hs; cases hs; exact h2 p hp he⟩
+  obtain ⟨-, -, g, -⟩ := Conn.getPacketsToSend_spec hg.1 hg.2 hr
+  have := g.1.1 ch
+  rw [hs0] at this
+  cases hb : SMap.find? c'.sendRel ch with
+  | none => rw [hb] at this; cases this
+  | some s' => exact ⟨s', hb, ((h1 ch s' hb).2.2 rfl).1⟩
+
+/-- the channel loop: once a packet in `E` has been appended, channel `ch` satisfies `S` -/
+theorem chanLoop_emit (now ch : Nat) (E : Packet → Prop) (S : SendRel → Prop)
+    (hE : ∀ ch' (s : SendRel) seq avail, s.Inv → s.ch = ch' → ∀ p ∈ (s.getPackets seq avail now).2.1, E p →
+      ch' = ch ∧ S (s.getPackets seq avail now).1)
+    (hS : ∀ (s : SendRel) seq avail, s.Inv → S s → S (s.getPackets seq avail now).1)
+    (hU : ∀ (s : SendUnrel) seq avail, ∀ p ∈ (s.getPackets seq avail).2.1, ¬ E p) :
+    ∀ (ord : List (Bool × Nat)) (sr : SMap SendRel) (su : SMap SendUnrel) (pk : List Packet) (seq avail : Nat)
+      (sr' : SMap SendRel) (su' : SMap SendUnrel) (pk' : List Packet) (seq' avail' : Nat),
+      Conn.chanLoop now ord (sr, su, pk, seq, avail) = .ok (sr', su', pk', seq', avail') →
+      ChansOK sr → ((∃ p ∈ pk, E p) → ∃ s, SMap.find? sr ch = some s ∧ S s) →
+      ((∃ p ∈ pk', E p) → ∃ s, SMap.find? sr' ch = some s ∧ S s)
+  | [], sr, su, pk, seq, avail, sr', su', pk', seq', avail', h, _, hq => by
+    simp only [Conn.chanLoop, Res.ok.injEq, Prod.mk.injEq] at h
+    obtain ⟨rfl, rfl, rfl, rfl, rfl⟩ := h
+    exact hq
+  | (true, ch1) :: rest, sr, su, pk, seq, avail, sr', su', pk', seq', avail', h, hc, hq => by
+    rw [chanLoop_rel_step] at h
+    split at h
+    · cases h
+    · rename_i s hf
+      obtain ⟨hi, hch⟩ := hc ch1 s hf
+      obtain ⟨a, b, -, -, -⟩ := getPackets_facts hi seq avail now
+      refine chanLoop_emit now ch E S hE hS hU rest _ _ _ _ _ _ _ _ _ _ h (hc.update a (b.1.trans hch)) ?_
+      rintro ⟨p, hp, he⟩
+      rw [SI.find?_insert]
+      rw [List.mem_append] at hp
+      rcases hp with hp | hp
+      · obtain ⟨s2, hs2, hS2⟩ := hq ⟨p, hp, he⟩
+        by_cases cc : ch1 = ch
+        · subst cc
+          rw [if_pos rfl]
+          rw [hf] at hs2; cases hs2
+          exact ⟨_, rfl, hS s seq avail hi hS2⟩
+        · rw [if_neg cc]; exact ⟨s2, hs2, hS2⟩
+      · obtain ⟨cc, hS2⟩ := hE ch1 s seq avail hi hch p hp he
+        subst cc
+        rw [if_pos rfl]
+        exact ⟨_, rfl, hS2⟩
+  | (false, ch1) :: rest, sr, su, pk, seq, avail, sr', su', pk', seq', avail', h, hc, hq => by
+    rw [chanLoop_unrel_step] at h
+    split at h
+    · cases h
+    · rename_i s hf
+      refine chanLoop_emit now ch E S hE hS hU rest _ _ _ _ _ _ _ _ _ _ h hc ?_
+      rintro ⟨p, hp, he⟩
+      rw [List.mem_append] at hp
+      rcases hp with hp | hp
+      · exact hq ⟨p, hp, he⟩
+      · exact absurd he (hU s seq avail p hp)
+
+/-- what a flush transmits of the slot is stamped with the flush time afterwards -/
+theorem stamp_emit_flush {id ch : Nat} {w : Option Nat} {c c' : Conn} {bs : List Bytes} (hg : Good c)
+    (hr : c.getPacketsToSend = .ok (c', bs)) {p : Packet} (hp : p ∈ System.flushPk c) (he : Emits ch id w p) :
+    Holds (StampGE c.now id w) c' ch := by
+  rcases getPacketsToSend_unfold hr with ⟨hd, hc', hbs⟩ | ⟨hd, sr, su, pk0, seq0, avail, sent, hl, hrec, hser⟩
+  · have : System.flushPk c = [] := by unfold System.flushPk; rw [if_pos hd]
+    rw [this] at hp; cases hp
+  · have key := chanLoop_emit c.now ch (Emits ch id w) (StampGE c.now id w)
+      (fun ch' s seq avail hi hc p hmem he => by
+        obtain ⟨h1, h2⟩ := stampGE_emitted hi seq avail c.now hmem he
+        exact ⟨hc.symm.trans h1, h2⟩)
+      (fun s seq avail hi hS => stampGE_flush seq avail c.now (Nat.le_refl _) hS)
+      (fun su seq avail p hmem he =>
+        absurd he.relOn (not_relOn_of_not_rel (System.unrel_not_rel su seq avail p hmem)))
+      _ _ _ _ _ _ _ _ _ _ _ hl hg.1.chans (fun ⟨_, h, _⟩ => by cases h)
+    rcases hser with ⟨hok, rfl⟩ | ⟨e, herr, rfl, rfl⟩
+    · have hf : System.flushPk c = (if c.pendingAcks.isEmpty then pk0 else pk0 ++ [Packet.ack seq0 c.pendingAcks]) := by
+        unfold System.flushPk; rw [hd]; simp only [Bool.false_eq_true, ↓reduceIte, hl, hok]
+      rw [hf] at hp
+      rcases mem_flushPk_cases hp with hp | rfl
+      · exact key ⟨p, hp, he⟩
+      · cases w <;> exact he.elim
+    · have hf : System.flushPk c = [] := by
+        unfold System.flushPk; rw [hd]; simp only [Bool.false_eq_true, ↓reduceIte, hl, herr]
+      rw [hf] at hp; cases hp
+
+/-! ### the clock -/
+
+/-- the duration an operation adds to the clock -/
+def _root_.RenetVerif.SrcConnSystem.COp.dt : COp → Nat
+  | .update d => d
+  | _ => 0
+
+theorem now_step {t t' : MTr} {op : COp} (hg : Good t.c) (hs : t.step op = some t') : t'.c.now = t.c.now + op.dt := by
+  have e := mtr_step_conn hs
+  cases op with
+  | send ch m => exact (Live.sendMessage_frame (show t.c.sendMessage ch m = .ok t'.c from e)).1
+  | recv ch =>
+    obtain ⟨m, hm⟩ := SL.Res.stateOf_ok (x := t.c.receiveMessage ch) e
+    exact (Live.receiveMessage_frame hm).1
+  | update dt => exact (Live.update_frame (show t.c.update dt = .ok t'.c from e)).1
+  | flush =>
+    obtain ⟨o, ho⟩ := SL.Res.stateOf_ok (x := t.c.getPacketsToSend) e
+    exact (Live.flush_frame ho).1
+  | process b => exact (Live.processPacket_frame hg.1 (show t.c.processPacket b = .ok t'.c from e)).1
+  | setConnected => cases hs; exact setConnected_now _
+  | setConnecting => cases hs; exact setConnecting_now _
+  | disconnect => cases hs; exact (Live.dw_frame _ _).1
+  | disconnectTransport => cases hs; exact (Live.dw_frame _ _).1
+
+/-- **the trace's own clock**: the connection's clock after a run is the clock before plus the `update` durations -/
+theorem now_run : ∀ (ops : List COp) (t t' : MTr), Good t.c → t.run ops = some t' →
+    t'.c.now = t.c.now + (ops.map COp.dt).sum
+  | [], t, t', _, hr => by cases hr; simp
+  | op :: ops, t, t', h, hr => by
+    simp only [MTr.run] at hr
+    cases hs : t.step op with
+    | none => rw [hs] at hr; cases hr
+    | some t1 =>
+      rw [hs] at hr
+      rw [now_run ops t1 t' (good_apply h (mtr_step_conn hs)) hr, now_step h hs]
+      simp only [List.map_cons, List.sum_cons]; omega
+
+/-! ### the stamp bound along a trace -/
+
+def RStamp (T id : Nat) (w : Option Nat) (ch : Nat) (c : Conn) : Prop :=
+  Good c ∧ T ≤ c.now ∧ Holds (StampGE T id w) c ch
+
+theorem rstamp_step {T id ch : Nat} {w : Option Nat} {t t' : MTr} {op : COp} (h : RStamp T id w ch t.c)
+    (hs : t.step op = some t') : RStamp T id w ch t'.c := by
+  obtain ⟨hg, hT, hh⟩ := h
+  have e := mtr_step_conn hs
+  refine ⟨good_apply hg e, by rw [now_step hg hs]; omega, ?_⟩
+  cases op with
+  | send ch' m => exact stamp_sendMessage hg.1 hh (show t.c.sendMessage ch' m = .ok t'.c from e)
+  | recv ch' =>
+    obtain ⟨m, hm⟩ := SL.Res.stateOf_ok (x := t.c.receiveMessage ch') e
+    exact holds_same (Conn.receiveMessage_same hm).1 hh
+  | update dt => exact holds_sendRel_eq (Conn.update_spec (show t.c.update dt = .ok t'.c from e)).1 hh
+  | flush =>
+    obtain ⟨o, ho⟩ := SL.Res.stateOf_ok (x := t.c.getPacketsToSend) e
+    exact (stamp_flush hg hT hh ho).1
+  | process b => exact stamp_processPacket hg.1 hh (show t.c.processPacket b = .ok t'.c from e)
+  | setConnected => cases hs; exact holds_same (setConnected_same _).1 hh
+  | setConnecting => cases hs; exact holds_same (setConnecting_same _).1 hh
+  | disconnect => cases hs; exact holds_same (Conn.disconnectWith_same _ _).1 hh
+  | disconnectTransport => cases hs; exact holds_same (Conn.disconnectWith_same _ _).1 hh
+
+theorem rstamp_run {T id ch : Nat} {w : Option Nat} : ∀ (ops : List COp) (t t' : MTr), RStamp T id w ch t.c →
+    t.run ops = some t' → RStamp T id w ch t'.c
+  | [], t, t', h, hr => by cases hr; exact h
+  | op :: ops, t, t', h, hr => by
+    simp only [MTr.run] at hr
+    cases hs : t.step op with
+    | none => rw [hs] at hr; cases hr
+    | some t1 => rw [hs] at hr; exact rstamp_run ops t1 t' (rstamp_step h hs) hr
+
+/-- what the decoder reads as a transmission of the slot was one -/
+theorem emits_faithful {p p' : Packet} {b : Bytes} (he : p.enc = .ok b) (hd : Packet.fromBytes b = .ok p')
+    (hlt : ∀ ch', RelOn ch' p → ch' < 256) {ch id : Nat} {w : Option Nat} (h : Emits ch id w p') : Emits ch id w p := by
+  obtain ⟨f1, f2, -⟩ := dec_enc_carries he hd hlt
+  have htag := (fromBytes_of_enc he hd).2
+  cases w with
+  | some i =>
+    have h' : CarriesSlice ch id i p' := by cases p' <;> first | exact h | exact h.elim
+    have h2 := f2 ch id i h'
+    cases p <;> first | exact h2 | exact h2.elim
+  | none =>
+    cases p' with
+    | smallReliable sq c msgs =>
+      have h2 := f1 ch id h
+      cases p with
+      | smallReliable _ _ _ => exact h2
+      | reliableSlice _ _ _ => simp only [tagByte] at htag; exact absurd htag (by decide)
+      | smallUnreliable _ _ _ => exact h2.elim
+      | unreliableSlice _ _ _ => exact h2.elim
+      | ack _ _ => exact h2.elim
+    | smallUnreliable _ _ _ => exact h.elim
+    | reliableSlice _ _ _ => exact h.elim
+    | unreliableSlice _ _ _ => exact h.elim
+    | ack _ _ => exact h.elim
+
+/-- the step of a flush -/
+theorem flush_step_inv {t t' : MTr} (hs : t.step .flush = some t') :
+    ∃ bs, t.c.getPacketsToSend = .ok (t'.c, bs) ∧ t'.flushes = t.flushes ++ [bs] := by
+  simp only [MTr.step] at hs
+  cases hm : t.c.getPacketsToSend with
+  | ok x =>
+    obtain ⟨c', o⟩ := x
+    rw [hm] at hs
+    simp only [Option.some.injEq] at hs
+    subst hs
+    exact ⟨o, rfl, rfl⟩
+  | err e => exact nomatch e
+  | panic s => rw [hm] at hs; cases hs
+
+/-- **C15, NOT EARLY, on traces (model level).**  Two flushes of a trace — ANY operations `mid` between them — both hand
+    out a datagram from which the decoder reads a transmission of the same slot (small message `id`, or slice `i` of message
+    `id`, of reliable channel `ch`).  Then the channel's `resend_time` is at most the clock difference between the two
+    flushes. -/
+theorem mtr_not_early {t t1 t2 t3 : MTr} {mid : List COp} (hg : Good t.c) (h1 : t.step .flush = some t1)
+    (h2 : t1.run mid = some t2) (h3 : t2.step .flush = some t3)
+    (hk1 : ∀ ch s, SMap.find? t.c.sendRel ch = some s → ch < 256)
+    (hk2 : ∀ ch s, SMap.find? t2.c.sendRel ch = some s → ch < 256) (ch id : Nat) (w : Option Nat) :
+    ∃ bs1 bs2, t1.flushes = t.flushes ++ [bs1] ∧ t3.flushes = t2.flushes ++ [bs2] ∧
+      ∀ b1 ∈ bs1, ∀ b2 ∈ bs2, ∀ p1 p2, Packet.fromBytes b1 = .ok p1 → Packet.fromBytes b2 = .ok p2 →
+        Emits ch id w p1 → Emits ch id w p2 →
+        ∀ s, SMap.find? t2.c.sendRel ch = some s → s.resend ≤ t2.c.now - t.c.now := by
+  obtain ⟨bs1, e1, l1⟩ := flush_step_inv h1
+  obtain ⟨bs2, e3, l3⟩ := flush_step_inv h3
+  refine ⟨bs1, bs2, l1, l3, ?_⟩
+  intro b1 hb1 b2 hb2 p1 p2 d1 d2 em1 em2 s hs
+  -- the first flush
+  obtain ⟨q1, hq1, he1⟩ := System.enc_mem (System.flush_facts hg.1 e1).1 hb1
+  have emq1 := emits_faithful he1 d1 (flush_chan_lt hg hk1 e1 q1 hq1) em1
+  have hst := stamp_emit_flush hg e1 hq1 emq1
+  have hg1 : Good t1.c := good_apply hg (mtr_step_conn h1)
+  have hn1 : t1.c.now = t.c.now := (Live.flush_frame e1).1
+  have hR := rstamp_run mid t1 t2 ⟨hg1, by omega, hst⟩ h2
+  -- the second flush
+  obtain ⟨hg2, hT2, hh2⟩ := hR
+  obtain ⟨q2, hq2, he2⟩ := System.enc_mem (System.flush_facts hg2.1 e3).1 hb2
+  have emq2 := emits_faithful he2 d2 (flush_chan_lt hg2 hk2 e3 q2 hq2) em2
+  exact (stamp_flush hg2 hT2 hh2 e3).2 s hs q2 hq2 emq2
+
+/-- the generated packet transmits slot `w` of message `id` of reliable channel `ch` (`Emits` on the generated type) -/
+def GEmits (ch id : Nat) : Option Nat → Src.renet.packet.Packet → Prop
+  | none, .SmallReliable _ c msgs => c = ch ∧ ∃ x ∈ msgs, x.1 = id
+  | some i, .ReliableSlice _ c sl => c = ch ∧ sl.message_id = id ∧ sl.slice_index = i
+  | _, _ => False
+
+instance (ch id : Nat) (w : Option Nat) (p : Src.renet.packet.Packet) : Decidable (GEmits ch id w p) := by
+  cases w <;> cases p <;> simp only [GEmits] <;> infer_instance
+
+theorem gemits_repr (ch id : Nat) (w : Option Nat) (p : Packet) : GEmits ch id w (reprPacket p) ↔ Emits ch id w p := by
+  cases w with
+  | none =>
+    cases p with
+    | smallReliable s c m =>
+      simp only [reprPacket, GEmits, Emits, List.mem_map]
+      constructor
+      · rintro ⟨h1, x, ⟨y, hy, rfl⟩, h2⟩; exact ⟨h1, y, hy, h2⟩
+      · rintro ⟨h1, y, hy, h2⟩; exact ⟨h1, _, ⟨y, hy, rfl⟩, h2⟩
+    | reliableSlice s c sl => simp only [reprPacket, GEmits, Emits]
+    | smallUnreliable s c m => simp only [reprPacket, GEmits, Emits]
+    | unreliableSlice s c sl => simp only [reprPacket, GEmits, Emits]
+    | ack s r => simp only [reprPacket, GEmits, Emits]
+  | some i => cases p <;> simp only [reprPacket, GEmits, Emits, reprSlice]
+
+/-! ## 7. C14 through the decoder: the payload the decoder reads from an encoding -/
+
+theorem decSmallUnrel_prefix : ∀ (msgs : List Bytes) (b : Bytes), encSmallUnrel msgs = .ok b →
+    ∀ k, k ≤ msgs.length → ∀ rest, ∃ r', decSmallUnrel k (b ++ rest) = .ok (msgs.take k, r')
+  | _, b, _, 0, _, rest => ⟨b ++ rest, by simp [decSmallUnrel]⟩
+  | [], _, _, k + 1, hk, _ => by simp at hk
+  | m :: xs, b, h, k + 1, hk, rest => by
+    simp only [encSmallUnrel] at h
+    obtain ⟨l, h2, h⟩ := res_bind_ok h
+    obtain ⟨body, h3, h⟩ := res_bind_ok h
+    obtain ⟨hl, rfl⟩ := putVarint_eq_ok h2
+    simp only [Res.pure_eq, Res.ok.injEq] at h
+    subst h
+    obtain ⟨r', hr'⟩ := decSmallUnrel_prefix xs body h3 k (by simpa using hk) rest
+    refine ⟨r', ?_⟩
+    simp only [decSmallUnrel, List.append_assoc]
+    rw [getBytesVar_enc _ _ hl]
+    simp only [bind, Except.bind, hr', List.take_succ_cons]
+    rfl
+
+theorem sum_take_le {α : Type} (f : α → Nat) (l : List α) (k : Nat) : ((l.take k).map f).sum ≤ (l.map f).sum := by
+  conv => rhs; rw [← List.take_append_drop k l]
+  rw [List.map_append, List.sum_append]
+  omega
+
+/-- **the decoder reads from an encoding at most the payload the packet carries** -/
+theorem dec_enc_payload {p p' : Packet} {b : Bytes} (he : p.enc = .ok b) (hd : Packet.fromBytes b = .ok p') :
+    payloadBytes p' ≤ payloadBytes p := by
+  have htag := (fromBytes_of_enc he hd).2
+  unfold Packet.fromBytes at hd
+  cases hdec : Packet.decode b with
+  | error e => rw [hdec] at hd; cases hd
+  | ok x =>
+    obtain ⟨q, r⟩ := x
+    rw [hdec] at hd
+    simp only [Except.ok.injEq] at hd
+    subst hd
+    cases p with
+    | smallReliable seq ch msgs =>
+      simp only [Packet.enc] at he
+      obtain ⟨s, h1, he⟩ := res_bind_ok he
+      obtain ⟨body, h2, he⟩ := res_bind_ok he
+      obtain ⟨hs, rfl⟩ := putVarint_eq_ok h1
+      simp only [Res.pure_eq, Res.ok.injEq] at he
+      subst he
+      obtain ⟨r', hr'⟩ := decSmallRel_prefix msgs body h2 (msgs.length % 65536) (Nat.mod_le _ _) []
+      have hq : Packet.decode ([0] ++ enc seq ++ [UInt8.ofNat ch] ++ u16be msgs.length ++ body) =
+          .ok (.smallReliable seq (UInt8.ofNat ch).toNat (msgs.take (msgs.length % 65536)), r') := by
+        simp only [Packet.decode, List.append_assoc, List.cons_append, List.nil_append, getU8_cons]
+        simp only [bind, Except.bind]
+        rw [show (0 : UInt8).toNat = 0 from rfl]
+        simp only []
+        rw [getVarint_enc _ hs]
+        simp only [getU8_cons, getU16_u16be_mod]
+        rw [List.append_nil] at hr'
+        simp only [hr']
+        rfl
+      rw [hq] at hdec
+      simp only [Except.ok.injEq, Prod.mk.injEq] at hdec
+      obtain ⟨rfl, -⟩ := hdec
+      exact sum_take_le _ _ _
+    | smallUnreliable seq ch msgs =>
+      simp only [Packet.enc] at he
+      obtain ⟨s, h1, he⟩ := res_bind_ok he
+      obtain ⟨body, h2, he⟩ := res_bind_ok he
+      obtain ⟨hs, rfl⟩ := putVarint_eq_ok h1
+      simp only [Res.pure_eq, Res.ok.injEq] at he
+      subst he
+      obtain ⟨r', hr'⟩ := decSmallUnrel_prefix msgs body h2 (msgs.length % 65536) (Nat.mod_le _ _) []
+      have hq : Packet.decode ([1] ++ enc seq ++ [UInt8.ofNat ch] ++ u16be msgs.length ++ body) =
+          .ok (.smallUnreliable seq (UInt8.ofNat ch).toNat (msgs.take (msgs.length % 65536)), r') := by
+        simp only [Packet.decode, List.append_assoc, List.cons_append, List.nil_append, getU8_cons]
+        simp only [bind, Except.bind]
+        rw [show (1 : UInt8).toNat = 1 from rfl]
+        simp only []
+        rw [getVarint_enc _ hs]
+        simp only [getU8_cons, getU16_u16be_mod]
+        rw [List.append_nil] at hr'
+        simp only [hr']
+        rfl
+      rw [hq] at hdec
+      simp only [Except.ok.injEq, Prod.mk.injEq] at hdec
+      obtain ⟨rfl, -⟩ := hdec
+      exact sum_take_le _ _ _
+    | reliableSlice seq ch sl =>
+      simp only [Packet.enc] at he
+      obtain ⟨s, h1, he⟩ := res_bind_ok he
+      obtain ⟨body, h2, he⟩ := res_bind_ok he
+      obtain ⟨hs, rfl⟩ := putVarint_eq_ok h1
+      simp only [Res.pure_eq, Res.ok.injEq] at he
+      subst he
+      simp only [encSlice] at h2
+      obtain ⟨a1, g1, h2⟩ := res_bind_ok h2
+      obtain ⟨a2, g2, h2⟩ := res_bind_ok h2
+      obtain ⟨a3, g3, h2⟩ := res_bind_ok h2
+      obtain ⟨a4, g4, h2⟩ := res_bind_ok h2
+      obtain ⟨k1, rfl⟩ := putVarint_eq_ok g1
+      obtain ⟨k2, rfl⟩ := putVarint_eq_ok g2
+      obtain ⟨k3, rfl⟩ := putVarint_eq_ok g3
+      obtain ⟨k4, rfl⟩ := putVarint_eq_ok g4
+      simp only [Res.pure_eq, Res.ok.injEq] at h2
+      subst h2
+      simp only [Packet.decode, List.append_assoc, List.cons_append, List.nil_append, getU8_cons] at hdec
+      simp only [bind, Except.bind] at hdec
+      rw [show (2 : UInt8).toNat = 2 from rfl] at hdec
+      simp only [] at hdec
+      rw [getVarint_enc _ hs] at hdec
+      simp only [getU8_cons] at hdec
+      rw [getVarint_enc _ k1] at hdec
+      simp only [] at hdec
+      rw [getVarint_enc _ k2] at hdec
+      simp only [] at hdec
+      rw [getVarint_enc _ k3] at hdec
+      simp only [] at hdec
+      split at hdec
+      · cases hdec
+      · have := getBytesVar_enc sl.payload [] k4
+        rw [List.append_nil] at this
+        rw [this] at hdec
+        simp only [] at hdec
+        split at hdec
+        · cases hdec
+        · split at hdec
+          · cases hdec
+          · simp only [pure, Except.pure, Except.ok.injEq, Prod.mk.injEq] at hdec
+            obtain ⟨rfl, -⟩ := hdec
+            exact Nat.le_refl _
+    | unreliableSlice seq ch sl =>
+      simp only [Packet.enc] at he
+      obtain ⟨s, h1, he⟩ := res_bind_ok he
+      obtain ⟨body, h2, he⟩ := res_bind_ok he
+      obtain ⟨hs, rfl⟩ := putVarint_eq_ok h1
+      simp only [Res.pure_eq, Res.ok.injEq] at he
+      subst he
+      simp only [encSlice] at h2
+      obtain ⟨a1, g1, h2⟩ := res_bind_ok h2
+      obtain ⟨a2, g2, h2⟩ := res_bind_ok h2
+      obtain ⟨a3, g3, h2⟩ := res_bind_ok h2
+      obtain ⟨a4, g4, h2⟩ := res_bind_ok h2
+      obtain ⟨k1, rfl⟩ := putVarint_eq_ok g1
+      obtain ⟨k2, rfl⟩ := putVarint_eq_ok g2
+      obtain ⟨k3, rfl⟩ := putVarint_eq_ok g3
+      obtain ⟨k4, rfl⟩ := putVarint_eq_ok g4
+      simp only [Res.pure_eq, Res.ok.injEq] at h2
+      subst h2
+      simp only [Packet.decode, List.append_assoc, List.cons_append, List.nil_append, getU8_cons] at hdec
+      simp only [bind, Except.bind] at hdec
+      rw [show (3 : UInt8).toNat = 3 from rfl] at hdec
+      simp only [] at hdec
+      rw [getVarint_enc _ hs] at hdec
+      simp only [getU8_cons] at hdec
+      rw [getVarint_enc _ k1] at hdec
+      simp only [] at hdec
+      rw [getVarint_enc _ k2] at hdec
+      simp only [] at hdec
+      rw [getVarint_enc _ k3] at hdec
+      simp only [] at hdec
+      split at hdec
+      · cases hdec
+      · have := getBytesVar_enc sl.payload [] k4
+        rw [List.append_nil] at this
+        rw [this] at hdec
+        simp only [pure, Except.pure, Except.ok.injEq, Prod.mk.injEq] at hdec
+        obtain ⟨rfl, -⟩ := hdec
+        exact Nat.le_refl _
+    | ack seq ranges =>
+      cases q <;> first | exact Nat.zero_le _ | (simp only [tagByte] at htag; exact absurd htag (by decide))
+
+/-- payload of what the decoder reads from a datagram (0 when it rejects the datagram) -/
+def decPay (b : Bytes) : Nat :=
+  match Packet.fromBytes b with
+  | .ok p => payloadBytes p
+  | .error _ => 0
+
+theorem decPay_sum_le : ∀ (pk : List Packet) (bs : List Bytes), pk.map encO = bs.map some →
+    (bs.map decPay).sum ≤ payloadSum pk
+  | [], [], _ => by simp
+  | [], _ :: _, h => by simp at h
+  | _ :: _, [], h => by simp at h
+  | p :: pk, b :: bs, h => by
+    simp only [List.map_cons, List.cons.injEq] at h
+    obtain ⟨h1, h2⟩ := h
+    have ih := decPay_sum_le pk bs h2
+    have he : p.enc = .ok b := by
+      unfold encO at h1
+      cases hp : p.enc with
+      | ok b' => rw [hp] at h1; simp only [Option.some.injEq] at h1; rw [h1]
+      | err e => rw [hp] at h1; cases h1
+      | panic s => rw [hp] at h1; cases h1
+    have : decPay b ≤ payloadBytes p := by
+      unfold decPay
+      cases hd : Packet.fromBytes b with
+      | ok p' => exact dec_enc_payload he hd
+      | error e => exact Nat.zero_le _
+    simp only [List.map_cons, List.sum_cons, payloadSum_cons]
+    omega
+
+/-- message payload bytes carried by a generated packet -/
+def gPayloadBytes : Src.renet.packet.Packet → Nat
+  | .SmallReliable _ _ msgs => (msgs.map (fun x => x.2.length)).sum
+  | .SmallUnreliable _ _ msgs => (msgs.map List.length).sum
+  | .ReliableSlice _ _ sl => sl.payload.length
+  | .UnreliableSlice _ _ sl => sl.payload.length
+  | .Ack _ _ => 0
+
+/-- payload of what the GENERATED decoder reads from a datagram (0 when it rejects the datagram) -/
+def gDecPay (b : GBytes) : Nat :=
+  match Src.renet.packet.Packet.from_bytes (RustSem.Octets.with_slice b) with
+  | .ok (_, p) => gPayloadBytes p
+  | _ => 0
+
+theorem gPayloadBytes_repr (p : Packet) : gPayloadBytes (reprPacket p) = payloadBytes p := by
+  cases p with
+  | smallReliable s c m =>
+    simp only [reprPacket, gPayloadBytes, payloadBytes, List.map_map]
+    congr 1
+    apply List.map_congr_left
+    intro x _; simp [toNats_length]
+  | smallUnreliable s c m =>
+    simp only [reprPacket, gPayloadBytes, payloadBytes, List.map_map]
+    congr 1
+    apply List.map_congr_left
+    intro x _; simp [toNats_length]
+  | reliableSlice s c sl => simp only [reprPacket, gPayloadBytes, payloadBytes, reprSlice, toNats_length]
+  | unreliableSlice s c sl => simp only [reprPacket, gPayloadBytes, payloadBytes, reprSlice, toNats_length]
+  | ack s r => rfl
+
+theorem gDecPay_toNats (b : Bytes) : gDecPay (toNats b) = decPay b := by
+  have := SrcTie.packet_from_bytes_fresh b
+  unfold gDecPay decPay
+  cases hf : Packet.fromBytes b with
+  | ok p =>
+    obtain ⟨cur, hc⟩ := gdecodes_of_fromBytes hf
+    rw [hc]
+    exact gPayloadBytes_repr p
+  | error e =>
+    rw [hf] at this
+    cases hx : Src.renet.packet.Packet.from_bytes (RustSem.Octets.with_slice (toNats b)) with
+    | ok v => rw [hx] at this; simp [Res.forget, mapRes] at this
+    | err e => rfl
+    | panic m => rfl
+
+theorem gDecPay_of_decodes {b : GBytes} {gp : Src.renet.packet.Packet} (h : GDecodes b gp) : gDecPay b = gPayloadBytes gp := by
+  obtain ⟨cur, h⟩ := h
+  simp only [gDecPay, h]
 
 end RenetVerif.SrcConnC15
